@@ -7,21 +7,66 @@ Open Scope list_scope.
 
 Section Cache.
   Variable H : bytes -> hash.
+  Variable ev : evariant.      (* which argument containers an expression's is_valid walks *)
+  Definition full (e : evariant) : Prop := task_walks_kwargs e = true /\ simple_walks_kwargs e = true.
 
-  (** what "still valid" means for one leaf *)
-  Definition leaf_still_valid (v : variant) (fs : fsys) (l : leaf) : Prop :=
+  Definition pall {A} (P : A -> Prop) : list A -> Prop :=
+    fix go (ls : list A) : Prop := match ls with [] => True | x :: r => P x /\ go r end.
+  Lemma pall_Forall {A} (P : A -> Prop) ls : pall P ls <-> Forall P ls.
+  Proof.
+    induction ls as [|x ls IH]; simpl; [split; auto|]. rewrite IH. split; [intros []; now constructor|now inversion 1].
+  Qed.
+
+  (** what "still valid" means for one leaf; an expression: its task is known and every value nested
+      in its positional AND keyword arguments is still valid *)
+  Fixpoint leaf_still_valid (v : variant) (fs : fsys) (l : leaf) : Prop :=
     match l with
     | LPlain => True
     | LHandle b => b = true
     | LExt o => always_valid o = true \/
                 exists h, calc_hash H v fs o = Some h /\ (vhash o = None \/ vhash o = Some h)
+    | LExpr k known kw args => (k = ETask -> known = true) /\
+                               pall (leaf_still_valid v fs) kw /\ pall (leaf_still_valid v fs) args
     end.
 
-  Lemma leaf_valid_true v fs l : leaf_valid H v fs l = VTrue <-> leaf_still_valid v fs l.
+  Lemma leaf_ind' (P : leaf -> Prop) :
+    P LPlain -> (forall o, P (LExt o)) -> (forall b, P (LHandle b)) ->
+    (forall k kn kw args, Forall P kw -> Forall P args -> P (LExpr k kn kw args)) -> forall l, P l.
   Proof.
-    destruct l as [|o|b]; simpl.
-    - tauto.
-    - unfold obj_is_valid. destruct (always_valid o); simpl; [tauto|].
+    intros H1 H2 H3 H4. fix IH 1. intros [|o|b|k kn kw args]; [exact H1|apply H2|apply H3|]. apply H4.
+    - revert kw. fix IHl 1. intros [|x kw]; constructor; [apply IH|apply IHl].
+    - revert args. fix IHl 1. intros [|x args]; constructor; [apply IH|apply IHl].
+  Qed.
+
+  Lemma leaf_valid_expr v fs k known kw args :
+    leaf_valid H ev v fs (LExpr k known kw args) =
+    if (match k with ETask => known | ESimple => true end)
+    then match (if walks_kwargs ev k then vall (leaf_valid H ev v fs) kw else VTrue) with
+         | VTrue => vall (leaf_valid H ev v fs) args
+         | r => r
+         end
+    else VFalse.
+  Proof. reflexivity. Qed.
+
+  Lemma vall_true {A} (f : A -> vres) (P : A -> Prop) ls :
+    Forall (fun x => f x = VTrue <-> P x) ls -> (vall f ls = VTrue <-> pall P ls).
+  Proof.
+    induction 1 as [|x ls Hx _ IH]; simpl; [tauto|].
+    destruct (f x) eqn:E.
+    - rewrite IH. split; [intros; split; auto; now apply Hx|tauto].
+    - split; [discriminate|]. intros [Px _]. apply Hx in Px. congruence.
+    - split; [discriminate|]. intros [Px _]. apply Hx in Px. congruence.
+  Qed.
+  Lemma vall_no_raise {A} (f : A -> vres) ls : Forall (fun x => f x <> VRaise) ls -> vall f ls <> VRaise.
+  Proof.
+    induction 1 as [|x ls Hx _ IH]; simpl; [discriminate|]. destruct (f x); auto; discriminate.
+  Qed.
+
+  Lemma leaf_valid_true v fs l : full ev -> leaf_valid H ev v fs l = VTrue <-> leaf_still_valid v fs l.
+  Proof.
+    intros [Ft Fs]. induction l as [|o|b|k kn kw args IHkw IHargs] using leaf_ind'.
+    - simpl. tauto.
+    - simpl. unfold obj_is_valid. destruct (always_valid o); simpl; [tauto|].
       destruct (vhash o) as [r|]; destruct (calc_hash H v fs o) as [h|]; simpl.
       + destruct (hash_eqb r h) eqn:E.
         * apply hash_eqb_eq in E. subst. split; auto. intros _. right. eauto.
@@ -30,75 +75,88 @@ Section Cache.
       + split; [discriminate|]. intros [F|(h' & F & _)]; discriminate.
       + split; auto. intros _. right. eauto.
       + split; [discriminate|]. intros [F|(h' & F & _)]; discriminate.
-    - destruct b; split; auto; discriminate.
+    - simpl. destruct b; split; auto; discriminate.
+    - rewrite leaf_valid_expr. cbn [leaf_still_valid].
+      assert (Hw : walks_kwargs ev k = true) by (destruct k; assumption). rewrite Hw.
+      pose proof (vall_true _ _ _ IHkw) as Ekw. pose proof (vall_true _ _ _ IHargs) as Eargs.
+      destruct k, kn; simpl.
+      + destruct (vall (leaf_valid H ev v fs) kw); [rewrite Eargs| |]; intuition (try discriminate; auto).
+      + split; [discriminate|]. intros [F _]. now specialize (F eq_refl).
+      + destruct (vall (leaf_valid H ev v fs) kw); [rewrite Eargs| |]; intuition (try discriminate; auto).
+      + destruct (vall (leaf_valid H ev v fs) kw); [rewrite Eargs| |]; intuition (try discriminate; auto).
   Qed.
 
-  Lemma leaf_valid_no_raise v fs l : content_missing_total v = true -> leaf_valid H v fs l <> VRaise.
+  Lemma leaf_valid_no_raise v fs l : content_missing_total v = true -> leaf_valid H ev v fs l <> VRaise.
   Proof.
-    intros Hv. destruct l as [|o|b]; simpl; try discriminate.
+    intros Hv. induction l as [|o|b|k kn kw args IHkw IHargs] using leaf_ind'; simpl; try discriminate.
     - unfold obj_is_valid. destruct (always_valid o); simpl; [discriminate|].
       generalize (hash_total H v (vfam o) fs (vtarget o) Hv). unfold calc_hash.
       destruct (calc_target H v (vfam o) fs (vtarget o)); [|congruence]. intros _.
       destruct (vhash o); simpl; [destruct (hash_eqb _ _)|]; discriminate.
     - destruct b; discriminate.
+    - change (leaf_valid H ev v fs (LExpr k kn kw args) <> VRaise). rewrite leaf_valid_expr.
+      pose proof (vall_no_raise _ _ IHkw) as Nkw. pose proof (vall_no_raise _ _ IHargs) as Nargs.
+      destruct (match k with ETask => kn | ESimple => true end); [|discriminate].
+      destruct (walks_kwargs ev k); [|exact Nargs].
+      destruct (vall (leaf_valid H ev v fs) kw); auto; discriminate.
   Qed.
 
-  Lemma all_valid_true v fs ls : all_valid H v fs ls = VTrue <-> Forall (leaf_still_valid v fs) ls.
+  Lemma all_valid_true v fs ls : full ev -> all_valid H ev v fs ls = VTrue <-> Forall (leaf_still_valid v fs) ls.
   Proof.
-    induction ls as [|l ls IH]; simpl.
+    intros Hf. induction ls as [|l ls IH]; simpl.
     - split; auto.
-    - destruct (leaf_valid H v fs l) eqn:E.
-      + rewrite IH. apply leaf_valid_true in E. split; [now constructor|now inversion 1].
-      + split; [discriminate|]. inversion 1 as [|? ? Hl]; subst. apply leaf_valid_true in Hl. congruence.
-      + split; [discriminate|]. inversion 1 as [|? ? Hl]; subst. apply leaf_valid_true in Hl. congruence.
+    - destruct (leaf_valid H ev v fs l) eqn:E.
+      + rewrite IH. apply (leaf_valid_true _ _ _ Hf) in E. split; [now constructor|now inversion 1].
+      + split; [discriminate|]. inversion 1 as [|? ? Hl]; subst. apply (leaf_valid_true _ _ _ Hf) in Hl. congruence.
+      + split; [discriminate|]. inversion 1 as [|? ? Hl]; subst. apply (leaf_valid_true _ _ _ Hf) in Hl. congruence.
   Qed.
-  Lemma all_valid_no_raise v fs ls : content_missing_total v = true -> all_valid H v fs ls <> VRaise.
+  Lemma all_valid_no_raise v fs ls : content_missing_total v = true -> all_valid H ev v fs ls <> VRaise.
   Proof.
     intros Hv. induction ls as [|l ls IH]; simpl; [discriminate|].
-    destruct (leaf_valid H v fs l) eqn:E; auto; [discriminate|]. now apply leaf_valid_no_raise in E.
+    destruct (leaf_valid H ev v fs l) eqn:E; auto; [discriminate|]. now apply leaf_valid_no_raise in E.
   Qed.
 
   Definition backend_hit (ct : cache_type) : Prop := ct = CT_SINGLE \/ ct = CT_ULTIMATE.
 
   (** replayed only if every external value is still valid -- for the code as shipped too *)
-  Theorem replay_only_if_valid v fs ct e r : backend_hit ct ->
-    get_cache H v fs ct e r = GHit -> e = false /\ Forall (leaf_still_valid v fs) (visit r).
+  Theorem replay_only_if_valid v fs ct e r : full ev -> backend_hit ct ->
+    get_cache H ev v fs ct e r = GHit -> e = false /\ Forall (leaf_still_valid v fs) (visit r).
   Proof.
-    intros [-> | ->]; unfold get_cache, is_valid_nested; simpl; destruct e; try discriminate;
-      (destruct (all_valid H v fs (visit r)) eqn:E; try discriminate; intros _; split; auto; now apply all_valid_true).
+    intros Hf [-> | ->]; unfold get_cache, is_valid_nested; simpl; destruct e; try discriminate;
+      (destruct (all_valid H ev v fs (visit r)) eqn:E; try discriminate; intros _; split; auto; now apply all_valid_true).
   Qed.
 
   (** ... and, once a missing content file has a hash, exactly then, without ever raising *)
-  Theorem replay_iff_valid v fs ct r : content_missing_total v = true -> backend_hit ct ->
-    (get_cache H v fs ct false r = GHit <-> Forall (leaf_still_valid v fs) (visit r)) /\
-    (get_cache H v fs ct false r = GMiss <-> ~ Forall (leaf_still_valid v fs) (visit r)).
+  Theorem replay_iff_valid v fs ct r : full ev -> content_missing_total v = true -> backend_hit ct ->
+    (get_cache H ev v fs ct false r = GHit <-> Forall (leaf_still_valid v fs) (visit r)) /\
+    (get_cache H ev v fs ct false r = GMiss <-> ~ Forall (leaf_still_valid v fs) (visit r)).
   Proof.
-    intros Hv Hb. rewrite <- all_valid_true. generalize (all_valid_no_raise v fs (visit r) Hv).
+    intros Hf Hv Hb. rewrite <- (all_valid_true _ _ _ Hf). generalize (all_valid_no_raise v fs (visit r) Hv).
     destruct Hb as [-> | ->]; unfold get_cache, is_valid_nested; simpl;
-      destruct (all_valid H v fs (visit r)); intros Hn; (split; split; try discriminate; try congruence; auto).
+      destruct (all_valid H ev v fs (visit r)); intros Hn; (split; split; try discriminate; try congruence; auto).
   Qed.
-  Theorem get_cache_no_raise v fs ct e r : content_missing_total v = true -> get_cache H v fs ct e r <> GRaise.
+  Theorem get_cache_no_raise v fs ct e r : content_missing_total v = true -> get_cache H ev v fs ct e r <> GRaise.
   Proof.
     intros Hv. generalize (all_valid_no_raise v fs (visit r) Hv). unfold get_cache, is_valid_nested. simpl.
-    destruct ct, e, (handles_valid r), (all_valid H v fs (visit r)); simpl; congruence.
+    destruct ct, e, (handles_valid r), (all_valid H ev v fs (visit r)); simpl; congruence.
   Qed.
   (** facts about the other branches: a same-execution (CSE) hit is used iff every Handle in it is
       still valid -- file values are not re-checked there --, errors are never replayed *)
   Theorem cse_checks_handles_only v fs e r :
-    get_cache H v fs CT_CSE e r = if handles_valid r then GHit else GMiss.
+    get_cache H ev v fs CT_CSE e r = if handles_valid r then GHit else GMiss.
   Proof. unfold get_cache. simpl. destruct (handles_valid r); reflexivity. Qed.
   Lemma handles_valid_spec r : handles_valid r = true <-> Forall (fun l => forall b, l = LHandle b -> b = true) (visit r).
   Proof.
     unfold handles_valid. rewrite forallb_forall, Forall_forall. split; intros Hx l Hin.
     - intros b ->. now apply (Hx _ Hin).
-    - destruct l as [|o|b]; auto. now apply (Hx _ Hin).
+    - destruct l as [|o|b|k kn kw args]; auto. now apply (Hx _ Hin).
   Qed.
-  Theorem errors_not_replayed v fs ct r : ct <> CT_CSE -> get_cache H v fs ct true r = GMiss.
+  Theorem errors_not_replayed v fs ct r : ct <> CT_CSE -> get_cache H ev v fs ct true r = GMiss.
   Proof. intros N. destruct ct; unfold get_cache; simpl; congruence. Qed.
 
   (** as shipped: a deleted ContentFile in a cached result makes the lookup raise *)
   Theorem contentfile_deleted_raises_shipped p h :
-    get_cache H shipped [] CT_SINGLE false (NLeaf (LExt (mkV FContent (TFile p) (Some h)))) = GRaise.
+    get_cache H ev shipped [] CT_SINGLE false (NLeaf (LExt (mkV FContent (TFile p) (Some h)))) = GRaise.
   Proof. reflexivity. Qed.
 
   (** * The run-level machine *)
@@ -130,13 +188,6 @@ Section Cache.
     induction r as [|n r IH]; simpl; auto. inversion 1 as [|? ? [l ->] Hr]; subst. simpl.
     simpl in IH. rewrite IH by auto. reflexivity.
   Qed.
-  Lemma recorded_now_valid v fs l : leaf_recorded_now v fs l -> (forall b, l <> LHandle b) -> leaf_still_valid v fs l.
-  Proof.
-    destruct l as [|o|b]; simpl; auto.
-    - intros (h & E1 & E2) _. right. exists h. auto.
-    - intros _ N. now destruct (N b).
-  Qed.
-
   (** what a run returns describes the filesystem as it is after the run *)
   Theorem executed_reflects_state v tk st mts st' r :
     exec_task H v tk st mts = HExecuted st' r ->
@@ -169,20 +220,20 @@ Section Cache.
     - unfold write_all. simpl. fold (write_all (fs_write fs q e (lookup_mt mts q)) files mts). now apply IH.
   Qed.
 
-  Theorem run_decides_by_validity v tk st mts r : content_missing_total v = true -> h_cache st = Some r ->
-    (Forall (leaf_still_valid v (h_fs st)) (visit r) -> hstep H v tk st (HRun mts) = HReplayed st r) /\
+  Theorem run_decides_by_validity v tk st mts r : full ev -> content_missing_total v = true -> h_cache st = Some r ->
+    (Forall (leaf_still_valid v (h_fs st)) (visit r) -> hstep H ev v tk st (HRun mts) = HReplayed st r) /\
     (~ Forall (leaf_still_valid v (h_fs st)) (visit r) ->
-       exists st' r', hstep H v tk st (HRun mts) = HExecuted st' r' /\ exec_task H v tk st mts = HExecuted st' r').
+       exists st' r', hstep H ev v tk st (HRun mts) = HExecuted st' r' /\ exec_task H v tk st mts = HExecuted st' r').
   Proof.
-    intros Hv Hc. simpl. rewrite Hc.
-    destruct (replay_iff_valid v (h_fs st) CT_SINGLE r Hv (or_introl eq_refl)) as [Hh Hm].
+    intros Hfull Hv Hc. simpl. rewrite Hc.
+    destruct (replay_iff_valid v (h_fs st) CT_SINGLE r Hfull Hv (or_introl eq_refl)) as [Hh Hm].
     split; intros Hf.
     - apply Hh in Hf. now rewrite Hf.
     - apply Hm in Hf. rewrite Hf. unfold exec_task.
       generalize (record_total v (exec_fs (h_fs st) tk mts) tk Hv).
       destruct (record H v (exec_fs (h_fs st) tk mts) tk); [eauto|congruence].
   Qed.
-  Theorem run_never_raises v tk st o st' : content_missing_total v = true -> hstep H v tk st o <> HRaised st'.
+  Theorem run_never_raises v tk st o st' : content_missing_total v = true -> hstep H ev v tk st o <> HRaised st'.
   Proof.
     intros Hv. destruct o; simpl; try discriminate.
     assert (He : exec_task H v tk st mts <> HRaised st').
@@ -190,17 +241,17 @@ Section Cache.
       destruct (record H v (exec_fs (h_fs st) tk mts) tk); [discriminate|congruence]. }
     destruct (h_cache st) as [r|]; auto.
     generalize (get_cache_no_raise v (h_fs st) CT_SINGLE false r Hv).
-    destruct (get_cache H v (h_fs st) CT_SINGLE false r); intros Hn; [discriminate|exact He|congruence].
+    destruct (get_cache H ev v (h_fs st) CT_SINGLE false r); intros Hn; [discriminate|exact He|congruence].
   Qed.
   (** whatever a run returns (replayed or recomputed), all its external values are valid now *)
-  Theorem run_result_valid v tk st mts : content_missing_total v = true ->
-    match hstep H v tk st (HRun mts) with
+  Theorem run_result_valid v tk st mts : full ev -> content_missing_total v = true ->
+    match hstep H ev v tk st (HRun mts) with
     | HReplayed st' r => st' = st /\ Forall (leaf_still_valid v (h_fs st)) (visit r)
     | HExecuted st' r => Forall (leaf_recorded_now v (h_fs st')) (visit r) /\ h_execs st' = S (h_execs st)
     | HRaised _ | HChanged _ => False
     end.
   Proof.
-    intros Hv. generalize (run_never_raises v tk st (HRun mts)). simpl.
+    intros Hf Hv. generalize (run_never_raises v tk st (HRun mts)). simpl.
     assert (He : forall st' r, exec_task H v tk st mts = HExecuted st' r ->
                  Forall (leaf_recorded_now v (h_fs st')) (visit r) /\ h_execs st' = S (h_execs st)).
     { intros st' r E. apply executed_reflects_state in E. tauto. }
@@ -209,7 +260,7 @@ Section Cache.
     assert (Hy : forall st', exec_task H v tk st mts <> HChanged st').
     { intros st'. unfold exec_task. destruct (record _ _ _ _); discriminate. }
     destruct (h_cache st) as [r|] eqn:Ec.
-    - destruct (get_cache H v (h_fs st) CT_SINGLE false r) eqn:Eg.
+    - destruct (get_cache H ev v (h_fs st) CT_SINGLE false r) eqn:Eg.
       + intros _. split; auto. apply (replay_only_if_valid v _ CT_SINGLE false r); auto. now left.
       + destruct (exec_task H v tk st mts) eqn:Ee; intros Hn; auto.
         * exfalso. now apply (proj2 (Hx st0) r0).
@@ -226,11 +277,37 @@ Section Cache.
   Definition w_task (p : fpath) (d : bytes) : task := [OutFile FContent p d].
   Theorem run_raises_shipped p d :
     let st0 := mkH [] None 0 in
-    let st1 := hrun H shipped (w_task p d) st0 [HRun []; HRemove p] in
-    h_execs st1 = 1%nat /\ hstep H shipped (w_task p d) st1 (HRun []) = HRaised st1.
+    let st1 := hrun H ev shipped (w_task p d) st0 [HRun []; HRemove p] in
+    h_execs st1 = 1%nat /\ hstep H ev shipped (w_task p d) st1 (HRun []) = HRaised st1.
   Proof.
     simpl. unfold exec_task, exec_fs, write_all. simpl. rewrite fpath_eqb_refl. simpl.
     rewrite fpath_eqb_refl. simpl. split; [reflexivity|].
     unfold get_cache, is_valid_nested. simpl. unfold obj_is_valid. simpl. reflexivity.
+  Qed.
+  (** * Expressions as cached results: what an args-only validity walk misses *)
+  Theorem expr_kwargs_unchecked v fs k kw args : walks_kwargs ev k = false ->
+    leaf_valid H ev v fs (LExpr k true kw args) = vall (leaf_valid H ev v fs) args.
+  Proof. intros Hw. rewrite leaf_valid_expr, Hw. now destruct k. Qed.
+
+  Lemma hash_eqb_cons_neq c : forall x, hash_eqb (x :: c) c = false.
+  Proof.
+    induction c as [|y c IH]; intros x; [reflexivity|].
+    change (Ascii.eqb x y && hash_eqb (y :: c) c = false). rewrite IH. apply andb_false_r.
+  Qed.
+  (** a File passed by keyword whose file changed since it was recorded (here: deleted; recorded hash
+      differs from the current one for every hash function) is replayed *)
+  Definition stale_file (p : fpath) : vobj := mkV FBase (TFile p) (Some ("x"%char :: hash_file_base H [] p)).
+  Theorem expr_args_only_refuted v p : task_walks_kwargs ev = false ->
+    let r := NLeaf (LExpr ETask true [LExt (stale_file p)] []) in
+    get_cache H ev v [] CT_SINGLE false r = GHit /\ ~ Forall (leaf_still_valid v []) (visit r) /\
+    leaf_valid H full_ev v [] (LExt (stale_file p)) = VFalse.
+  Proof.
+    intros Hw. cbn zeta. split; [|split].
+    - unfold get_cache, is_valid_nested. cbn [visit all_valid]. rewrite expr_kwargs_unchecked by exact Hw. reflexivity.
+    - cbn [visit app]. inversion 1 as [|? ? Hl _]; subst. cbn in Hl. destruct Hl as (_ & (Hk & _) & _).
+      destruct Hk as [F|(h & E & [F|F])]; try discriminate. injection E as <-. injection F as F.
+      apply (f_equal (@length _)) in F. simpl in F. induction (length _); auto; congruence.
+    - unfold stale_file. cbn [leaf_valid]. unfold obj_is_valid.
+      cbn [always_valid vfam vtarget vhash calc_hash calc_target hash_file]. now rewrite hash_eqb_cons_neq.
   Qed.
 End Cache.
